@@ -58,3 +58,83 @@ Theorem C08_destroy_removes_table : forall c hash fapply w a s, get_tab w a = So
   snd (step_some c hash fapply w a s ODestroy) = [RNone] /\ get_tab w' a = None /\ (forall x, x <> a -> get_tab w' x = get_tab w x).
 Proof. exact destroy_returns_all. Qed.
 Print Assumptions C08_destroy_removes_table.
+
+(* ---- exactly once, at the level of the model's slots: an insertion creates exactly one live element, an erasure removes exactly one, a displacement or a stripe migration relocates elements without changing how many are live (the object registry of the harness observes the constructor / destructor calls themselves) ---- *)
+From LC Require Import InsertLemmas.
+Theorem C08_insertion_creates_exactly_one_element :
+  forall (c : config) (hash : N -> N) (t : table) (b s k : N) (v : Z),
+  settled c hash t ->
+  bget (cur t) b s = None ->
+  b < 2 ^ bhp (cur t) ->
+  s < spb c ->
+  cand hash (bhp (cur t)) k b ->
+  ~ key_in (cur t) k ->
+  let t' := add_to_bucket c t b s (partial_key (hash k)) k v in
+  settled c hash t' /\
+  bhp (cur t') = bhp (cur t) /\
+  (forall (k' : N) (v' : Z), holds (cur t') k' v' <-> k' = k /\ v' = v \/ k' <> k /\ holds (cur t) k' v').
+Proof. exact add_to_bucket_settled. Qed.
+Print Assumptions C08_insertion_creates_exactly_one_element.
+
+Theorem C08_erasure_removes_exactly_one_element :
+  forall (c : config) (hash : N -> N) (t : table) (b s : N) (e : entry),
+  settled c hash t ->
+  bget (cur t) b s = Some e ->
+  let t' := del_from_bucket c t b s in
+  settled c hash t' /\
+  bhp (cur t') = bhp (cur t) /\
+  (forall (k' : N) (v' : Z), holds (cur t') k' v' <-> holds (cur t) k' v' /\ k' <> ekey e).
+Proof. exact del_from_bucket_settled. Qed.
+Print Assumptions C08_erasure_removes_exactly_one_element.
+
+Theorem C08_displacement_relocates_without_creating_or_losing :
+  forall (c : config) (hash : N -> N) (mode : bool) (t : table) (path : list cuckoo_record)
+  (depth i1 i2 : N),
+  settled c hash t ->
+  path_wf (bhp (cur t)) path ->
+  (N.to_nat depth < length path)%nat ->
+  Forall (fun r : cuckoo_record => crslot r < spb c) path ->
+  exists (t' : table) (ok : bool),
+  cuckoopath_move c hash mode t path depth i1 i2 = (t', ok) /\
+  settled c hash t' /\
+  bhp (cur t') = bhp (cur t) /\
+  locks t' = locks t /\
+  (forall (k : N) (v : Z), holds (cur t') k v <-> holds (cur t) k v) /\
+  (ok = true -> bget (cur t') (crbucket (nth_rec path 0)) (crslot (nth_rec path 0)) = None).
+Proof. exact cuckoopath_move_settled. Qed.
+Print Assumptions C08_displacement_relocates_without_creating_or_losing.
+
+Theorem C08_displacement_keeps_the_number_of_live_elements :
+  forall (c : config) (a : barray) (b1 s1 : N) (e : entry) (b2 s2 : N) (e' : entry),
+  b1 < 2 ^ bhp a ->
+  s1 < spb c ->
+  b2 < 2 ^ bhp a ->
+  s2 < spb c ->
+  bget a b1 s1 = Some e ->
+  bget a b2 s2 = None -> count_arr c (bset (bset a b2 s2 (Some e')) b1 s1 None) = count_arr c a.
+Proof. exact count_arr_move. Qed.
+Print Assumptions C08_displacement_keeps_the_number_of_live_elements.
+
+Theorem C08_stripe_migration_keeps_elements_and_counts :
+  forall (c : config) (hash : N -> N),
+  cfg_ok c ->
+  forall (s : bool) (t : table) (l : N),
+  wfg c hash s t ->
+  let t' := rehash_lock c hash s t l in
+  wfg c hash s t' /\
+  (forall (k : N) (v : Z), lholds c t' k v <-> lholds c t k v) /\
+  (lcounted c t -> lcounted c t') /\
+  mig (lock_at t' l) = true /\
+  (forall l' : N, l' <> l -> lock_at t' l' = lock_at t l') /\
+  (forall l' : N, mig (lock_at t l') = true -> mig (lock_at t' l') = true) /\
+  bhp (cur t') = bhp (cur t) /\
+  bhp (old t') = bhp (old t) /\
+  length (cur_locks t') = length (cur_locks t) /\
+  rc t' = rc t /\
+  mlfn t' = mlfn t /\
+  mlfd t' = mlfd t /\
+  mhp t' = mhp t /\
+  workers t' = workers t /\
+  (forall b s0 : N, mig (lock_at t (b mod kmax c)) = true -> bget (cur t') b s0 = bget (cur t) b s0).
+Proof. exact rehash_lock_wf. Qed.
+Print Assumptions C08_stripe_migration_keeps_elements_and_counts.
